@@ -60,6 +60,10 @@ type fileSpec struct {
 	Actions  []string // per rule, inner text ("" = no action)
 	AltJoin  []bool   // rule i is written as `| alternative` of rule i-1 (same lhs)
 	Semi     []bool   // rule group ends with ';'
+	// order of the declaration lines: tokens (t<i>), precedence lines (p<i>, relative order kept), %type (y<name>), %start (s)
+	DeclOrder []string
+	// tokens additionally pre-declared bare (`%token NAME`) before their full declaration
+	PreDecl []string
 }
 
 var actionBodies = []string{
@@ -125,6 +129,39 @@ func genFileSpec(r *rand.Rand, id string) *fileSpec {
 		}
 	}
 	fs := &fileSpec{ID: id, Case: c}
+	var items []string
+	for i := range c.Tokens {
+		items = append(items, fmt.Sprintf("t%d", i))
+	}
+	for _, nt := range c.NTs() {
+		if _, ok := c.Types[nt]; ok {
+			items = append(items, "y"+nt)
+		}
+	}
+	items = append(items, "s")
+	if r.Intn(2) == 0 {
+		r.Shuffle(len(items), func(i, j int) { items[i], items[j] = items[j], items[i] })
+	}
+	// weave the precedence lines in, keeping their relative order (it defines the levels)
+	for i := range c.Prec {
+		lo := 0
+		for k, it := range items {
+			if it[0] == 'p' {
+				lo = k + 1
+			}
+		}
+		pos := len(items)
+		if r.Intn(2) == 0 {
+			pos = lo + r.Intn(len(items)-lo+1)
+		}
+		items = append(items[:pos], append([]string{fmt.Sprintf("p%d", i)}, items[pos:]...)...)
+	}
+	fs.DeclOrder = items
+	for _, t := range c.Tokens {
+		if !t.Lit && (t.Tag != "" || t.Num != 0) && r.Intn(4) == 0 {
+			fs.PreDecl = append(fs.PreDecl, t.Name)
+		}
+	}
 	fs.Prologue = []string{"package main", "package main\n\nimport \"fmt\"\n\nvar _ = fmt.Sprint", "package p // 100% Go { not a brace problem }\nconst K = 1"}[r.Intn(3)]
 	if len(c.Types) > 0 || r.Intn(2) == 0 {
 		fs.Union = []string{"ia int\n\tst string\n\tnode *Node", "ia int; st string; node struct{ a, b int }"}[r.Intn(2)]
@@ -159,35 +196,46 @@ func (fs *fileSpec) lexemes() []lexeme {
 		w("%union")
 		w("{\n\t" + fs.Union + "\n}")
 	}
-	for _, t := range c.Tokens {
+	for _, name := range fs.PreDecl {
 		w("%token")
-		if t.Tag != "" {
-			p("<")
-			w(t.Tag)
-			p(">")
-		}
-		w(symText(t.Sym()))
-		if t.Num != 0 {
-			w(fmt.Sprint(t.Num))
-		}
+		w(name)
 	}
-	for _, pl := range c.Prec {
-		w("%" + pl.Assoc)
-		for _, s := range pl.Syms {
-			w(symText(s))
-		}
-	}
-	for _, nt := range c.NTs() {
-		if tg, ok := c.Types[nt]; ok {
+	for _, it := range fs.DeclOrder {
+		switch it[0] {
+		case 't':
+			var i int
+			fmt.Sscanf(it[1:], "%d", &i)
+			t := c.Tokens[i]
+			w("%token")
+			if t.Tag != "" {
+				p("<")
+				w(t.Tag)
+				p(">")
+			}
+			w(symText(t.Sym()))
+			if t.Num != 0 {
+				w(fmt.Sprint(t.Num))
+			}
+		case 'p':
+			var i int
+			fmt.Sscanf(it[1:], "%d", &i)
+			pl := c.Prec[i]
+			w("%" + pl.Assoc)
+			for _, s := range pl.Syms {
+				w(symText(s))
+			}
+		case 'y':
+			nt := it[1:]
 			w("%type")
 			p("<")
-			w(tg)
+			w(c.Types[nt])
 			p(">")
 			w(nt)
+		case 's':
+			w("%start")
+			w(c.Start)
 		}
 	}
-	w("%start")
-	w(c.Start)
 	w("%%")
 	for i, ru := range c.Rules {
 		if fs.AltJoin[i] {
